@@ -184,6 +184,8 @@ type Sched struct {
 	// simulated clock (engine B): the run package installs these
 	Now     func() int64   // current simulated time (ns)
 	Advance func(to int64) // move the simulated clock forward to `to`
+	Drift   func() int64   // ns the clock moves while a preempted task is descheduled (0 = none)
+	Drifts  int
 	sleepSq int
 
 	// probes
@@ -435,6 +437,15 @@ func (s *Sched) Run() {
 			s.SwitchCount++
 			if prev.state == stRunnable {
 				s.preempt[site]++
+				// a preempted thread does not stop the world's clock: time
+				// may pass while it is descheduled (engine B only)
+				if s.Drift != nil && s.Advance != nil && s.Now != nil {
+					if d := s.Drift(); d > 0 {
+						s.Advance(s.Now() + d)
+						s.Drifts++
+						s.wakeDue()
+					}
+				}
 			}
 		}
 
@@ -586,8 +597,29 @@ func (s *Sched) wakeNext() bool {
 	if s.Advance != nil {
 		s.Advance(best.wakeAt)
 	}
-	best.state = stRunnable
+	// everything that is due at this instant wakes up together
+	for _, t := range s.Tasks {
+		if t.state == stSleeping && t.wakeAt <= best.wakeAt {
+			t.state = stRunnable
+		}
+	}
 	return true
+}
+
+// wakeDue makes the sleeping tasks whose wake-up time has passed runnable
+// (after the clock moved for another reason than a wake-up).
+//
+//go:norace
+func (s *Sched) wakeDue() {
+	if s.Now == nil {
+		return
+	}
+	now := s.Now()
+	for _, t := range s.Tasks {
+		if t.state == stSleeping && t.wakeAt <= now {
+			t.state = stRunnable
+		}
+	}
 }
 
 //go:norace
